@@ -79,3 +79,10 @@ package api
 // Not verified itself; callers only know that it may do anything (no ensures are assumed).
 //@ func HTTP.DispatchPrivateWithoutAuth
 //@   modifies *
+
+// C15: text that enters the replicated log from a client is a single line: no LF, CR or NUL.
+//@ pred noCtl(x string) = forall k int :: 0 <= k && k < len(x) ==> x[k] != 10 && x[k] != 13 && x[k] != 0
+//@ func HTTP.handlePostMessage
+//@   assert@call HTTP.applyMessageWait#0 : oneline: noCtl(msg.Data)
+//@ func HTTP.handleDeleteSession
+//@   assert@call HTTP.applyMessageWait#0 : oneline: noCtl(msg.Data)
